@@ -352,7 +352,9 @@ def buildOne (msl : Bool) (p : Params) (pg : Prog) (pipe : Option PipeDef) : Str
     match slots, metaR with
     | .error e, _ => "panic:" ++ e
     | _, .error e =>
-      if e == "UnsupportedBindGroupIndex" || e == "UnboundGlobal" then "err:" ++ e else "panic:" ++ e
+      -- the clean refusals of the exporters (`GenerateError`); everything else is a panic / assert of the Rust code
+      if e == "UnsupportedBindGroupIndex" || e == "UnboundGlobal" || e == "UnsupportedObjectType" then "err:" ++ e
+      else "panic:" ++ e
     | .ok res, .ok groups =>
       let annR := annots (if msl then mslAnnot else hlslAnnot p) ds res.bindings
       match annR with
